@@ -135,6 +135,20 @@ def linkops(ctx):
     for p in f:
         atoms.append((p, lambda e, s, tr: _need_has(s) and not s['nonempty']))
 
+    def size_cmp(op, flipped=False):
+        def fn_(e, s, tr):
+            k = e['_K']
+            if not (isinstance(k, ast.Constant) and type(k.value) is int):
+                return None
+            _need_has(s)
+            n_ = int(s['pair']) + int(s['others'])       # others: 0, 1 or 2 (two stands for "two or more")
+            a_, b_ = (k.value, n_) if flipped else (n_, k.value)
+            return {'==': a_ == b_, '!=': a_ != b_, '<': a_ < b_, '<=': a_ <= b_, '>': a_ > b_, '>=': a_ >= b_}[op]
+        return fn_
+    for op_ in ('==', '!=', '<', '<=', '>', '>='):
+        atoms.append(('len(%s) %s _K' % (slot, op_), size_cmp(op_)))
+        atoms.append(('_K %s len(%s)' % (op_, slot), size_cmp(op_, True)))
+
     def remove(e, s, tr):
         _need_has(s)
         if not s['pair']:
@@ -142,22 +156,27 @@ def linkops(ctx):
                 raise AnalysisError('abstract KeyError')
             return
         s['pair'] = False
-        s['nonempty'] = s['others']
+        s['nonempty'] = bool(s['others'])
         tr.append('remove')
 
     def del_slot(e, s, tr):
         _need_has(s)
-        tr.append('del-nonempty' if s['nonempty'] else 'del')
+        if s.get('pair') and not s.get('others'):
+            tr.append('remove')        # the entry holds exactly the pair: dropping it removes the pair
+            tr.append('del')
+            s['pair'] = False
+        else:
+            tr.append('del-nonempty' if s['nonempty'] else 'del')
         s['has'] = False
         s['nonempty'] = False
 
     effects = [('%s._M(%s)' % (slot, B), lambda e, s, tr: remove(e, s, tr) if e['_M'] in ('remove', 'discard') else False),
                ('del %s' % slot, del_slot)]
     it = absint.Interp(fn, atoms, effects)
-    for has, pair, others in itertools.product([0, 1], repeat=3):
+    for has, pair, others in itertools.product([0, 1], [0, 1], [0, 1, 2]):
         if (pair and not has) or (others and not has):
             continue
-        st = dict(has=bool(has), pair=bool(pair), others=bool(others), nonempty=bool(pair or others))
+        st = dict(has=bool(has), pair=bool(pair), others=others, nonempty=bool(pair or others))
         st0 = dict(st)
         desc = 'disconnect%s' % _fmt(st0)
         try:
